@@ -337,9 +337,10 @@ func (r *runner) doItem(it Item) {
 			r.note(it.K, "shutdown skipped: a call is in flight on the real side")
 			return
 		}
-		// the model's final GC pass stands for min-idle 0 on a clock that always advances; the fake clock does not
-		// (SCHED_NO_SHUTDOWN_TICK=1 shows the difference: unheld locks then survive the final pass on the real side)
-		if os.Getenv("SCHED_NO_SHUTDOWN_TICK") == "" {
+		// the model's final GC pass is lockGc(0) exactly as the code has it: it collects what has been idle for MORE than 0 ns
+		// on the (fake) clock, so a lock touched at this very instant survives it on both sides. SCHED_SHUTDOWN_TICK=1 lets
+		// one nanosecond pass first (the model then needs a tick item too).
+		if os.Getenv("SCHED_SHUTDOWN_TICK") != "" {
 			time.Sleep(time.Nanosecond)
 		}
 		r.shut = true
